@@ -143,9 +143,9 @@ func genBLengthList(w *codewriter, rwctx *golang.ReadWriteContext, varname strin
 }
 
 func genBLengthMap(w *codewriter, rwctx *golang.ReadWriteContext, varname string, depth int) {
-	t := rwctx.Type
-	kt := t.KeyType
-	vt := t.ValueType
+	// use the types of the sub-contexts: a typedef'd map has no KeyType/ValueType of its own
+	kt := rwctx.KeyCtx.Type
+	vt := rwctx.ValCtx.Type
 
 	// map header
 	w.f("off += 6")
